@@ -90,6 +90,28 @@ CodeRevs(steps, n) ==
 
 CodeEffective(r) == Mp(CoalesceValues([name |-> "root", vals |-> r.chartvals, deps |-> <<>>], r.cfg).v)
 
+(* ----- one rule for every key ------------------------------------------------------------- *)
+\* "Overlaid key by key with the new ones": what a null of the new values does to a key the
+\* deployed revision's values set is the same whatever is stored there (scalar, table, null) - the
+\* statement has no rule that looks at the kind of the old value.  NullTreat: how one overlay
+\* treated the nulls it laid over set keys: "kept" (recorded as null - what C13 asks for),
+\* "dropped" (key absent - finding L18), per key path.  new / old / res: map functions (new values,
+\* deployed revision's recorded values, recorded result).
+RECURSIVE NullTreat(_, _, _)
+NullTreat(new, old, res) ==
+  UNION { IF IsNull(new[x])
+          THEN (IF x \notin DOMAIN res THEN {"dropped"} ELSE IF IsNull(res[x]) THEN {"kept"} ELSE {"other"})
+          ELSE IF IsMap(new[x]) /\ IsMap(old[x]) /\ x \in DOMAIN res /\ IsMap(res[x])
+               THEN NullTreat(new[x].m, old[x].m, res[x].m)
+               ELSE {}
+          : x \in DOMAIN new \cap DOMAIN old }
+
+\* all overlays (reuse / reset-then-reuse steps, failed ones included: their revision is recorded
+\* too) of steps 1..n of a chain; cfgs: recorded values per revision
+TreatsUpTo(steps, cfgs, n) ==
+  UNION { IF Carries(steps[i]) THEN NullTreat(steps[i].vals, cfgs[DepAt(steps, i)], cfgs[i]) ELSE {} : i \in 2..n }
+NullUniform(steps, cfgs, n) == Cardinality(TreatsUpTo(steps, cfgs, n) \cap {"kept", "dropped"}) <= 1
+
 (* ----- finding L18: lineage of a revision's values contains a null laid over a set key ---- *)
 \* cfgs: the recorded values per revision (code-shaped in the model check, observed in the monitor)
 RECURSIVE L18Lineage(_, _, _)
